@@ -606,6 +606,19 @@ static char telnet_ga[] = { INT_CHAR(IAC), INT_CHAR(GA), 0 };
  * @param ip Pointer to interactive structure.
  * @return Number of characters copied.
  */
+/* An LPC callback made while input is being taken in (terminal type, window size, a telnet suboption, process_input)
+ * may destruct the user object or drop the connection: the interactive structure is freed then. */
+static int interactive_exists (interactive_t * ip) {
+  int i;
+
+  for (i = 0; i < max_users; i++)
+    if (all_users[i] == ip)
+      return 1;
+  return 0;
+}
+
+#define INTERACTIVE_GONE ((size_t) -1)
+
 static size_t copy_chars (UCHAR* from, UCHAR* to, size_t count, interactive_t* ip) {
 
   size_t i;
@@ -675,6 +688,8 @@ static size_t copy_chars (UCHAR* from, UCHAR* to, size_t count, interactive_t* i
                       break;
                     copy_and_push_string ((char*)ip->sb_buf + 2);
                     apply (APPLY_TERMINAL_TYPE, ip->ob, 1, ORIGIN_DRIVER);
+                    if (!interactive_exists (ip))
+                      return INTERACTIVE_GONE;
                     break;
                   }
                 case TELOPT_NAWS:
@@ -686,6 +701,8 @@ static size_t copy_chars (UCHAR* from, UCHAR* to, size_t count, interactive_t* i
                     push_number (w);
                     push_number (h);
                     apply (APPLY_WINDOW_SIZE, ip->ob, 2, ORIGIN_DRIVER);
+                    if (!interactive_exists (ip))
+                      return INTERACTIVE_GONE;
                     break;
                   }
                 case TELOPT_LINEMODE:
@@ -780,6 +797,8 @@ static size_t copy_chars (UCHAR* from, UCHAR* to, size_t count, interactive_t* i
                      */
                     copy_and_push_string ((char*)ip->sb_buf);
                     apply (APPLY_TELNET_SUBOPTION, ip->ob, 1, ORIGIN_DRIVER);
+                    if (!interactive_exists (ip))
+                      return INTERACTIVE_GONE;
                     break;
                   }
                 }
@@ -1983,7 +2002,13 @@ static void get_user_data (interactive_t* ip, io_event_t* evt) {
            * process suboption negotiations (TTYPE, NAWS, LINEMODE), etc.
            * copy_chars() implements the TELNET state machine.
            */
-          ip->text_end += copy_chars ((UCHAR *) buf, (UCHAR *) ip->text + ip->text_end, num_bytes, ip);
+          {
+            size_t copied = copy_chars ((UCHAR *) buf, (UCHAR *) ip->text + ip->text_end, num_bytes, ip);
+
+            if (copied == INTERACTIVE_GONE)
+              return; /* a callback took the user object or the connection away */
+            ip->text_end += copied;
+          }
           opt_trace (TT_COMM|3, "Command buffer contains %d characters\n", ip->text_end - ip->text_start);
           /*
            * now, ip->text_end is just after the last character read. If the last character
@@ -2026,6 +2051,8 @@ static void get_user_data (interactive_t* ip, io_event_t* evt) {
                   {
                     push_malloced_string (str);
                     apply (APPLY_PROCESS_INPUT, ip->ob, 1, ORIGIN_DRIVER);
+                    if (!interactive_exists (ip))
+                      return; /* process_input() took the user object or the connection away */
                   }
                 if (ip->text_start == ip->text_end)
                   {
@@ -2057,6 +2084,8 @@ static void get_user_data (interactive_t* ip, io_event_t* evt) {
             memcpy (buffer->item, buf, num_bytes);
             push_refed_buffer (buffer);
             apply (APPLY_PROCESS_INPUT, ip->ob, 1, ORIGIN_DRIVER);
+            if (!interactive_exists (ip))
+              return;
             break;
           }
         }
